@@ -54,6 +54,9 @@ CLAIMED = {
  "C14": ("lattice", "bounded-exhaustive enumeration of hostile strings (<=2 tokens quick, <=3 thorough) in every interpolated position of the five emitted forms, tokenised by an HTML5 tokenizer, and the full product of schemes x bindings x attributes x endpoint-bearing elements x parsers for metadata",
          "Every string over a 30-token HTML/JS/URL metacharacter alphabet is placed in the action URL and RelayState positions of the SP request / logout forms, the IdP response form and the bundled IdP login form; the emitted page must tokenise to exactly the template's tag sequence and attribute names, carry the string verbatim in its hidden field and never expose a script-scheme action; about 14,800 metadata documents (22 location schemes x 7 bindings x Location/ResponseLocation x 16 endpoint slots x EntityDescriptor/EntitiesDescriptor) go through xml.Unmarshal, samlsp.ParseMetadata and samlidp PUT: surviving locations of known bindings must be http(s), of unknown bindings blank.",
          "DESIGN.md §3 C14", "golang.org/x/net/html tokenizer stands in for browsers; hidden-field values compared modulo what HTML itself does to CR/NUL"),
+ "C16": ("lattice", "bounded-exhaustive enumeration of a structure-aware token-edit catalogue x clock positions x deployments through the real RequireAccount / RequireAttribute handlers, against a three-valued reference model",
+         "Genuine session and tracking tokens are minted by the real codecs (RSA and ECDSA keys, default and custom lifetime / cookie name); every catalogued edit (algorithm substitution incl. none and HMAC keyed with the public key, re-signing by own / other / other-family keys, header extras, each claim removed / altered / mistyped, audience arrays, marker swap, other deployments, every signature byte flip and truncation, segment counts, encoding variants) is presented at 8 clock positions around issue and expiry: the wrapped handler must run iff the token is one the codec minted and nbf <= now < exp. Attribute exposure and RequireAttribute are checked relationally over 8 assertion shapes.",
+         "DESIGN.md §3 C16", "golang-jwt is used harness-side to sign the forged tokens; both saml.TimeNow and jwt.TimeFunc are pinned"),
  "C15": ("lattice", "exhaustive sub-range sweeps (dense nanosecond ranges, digit-sparse values, carries), bounded grammar enumeration of duration strings vs a reference recogniser, instant lattice, 2^14 metadata shapes with a fixed-point oracle",
          "Durations: every value of dense and digit-sparse sub-ranges (thorough: all 1e9 sub-second values) x carries x sign round-trips exactly; every duration string of <=5 tokens agrees with a hand-written xsd:duration recogniser; instants on the year/date/time/rounding-edge/zone lattice round-trip to the ms-rounded UTC instant and documented lexical forms are accepted, others rejected; every library-generated SP/IdP metadata document and 2^14 generated EntityDescriptor shapes (plus EntitiesDescriptor by value/pointer) re-parse to an equal value and reach a fixed point after one generation.",
          "DESIGN.md §3 C15", "encoding/xml; the reference xsd:duration recogniser in checks/c15.go; values outside the enumerated sub-ranges are not covered"),
